@@ -167,3 +167,13 @@ package s2
 //@   ensures [index-cell-itself] (exists k int :: 0 <= k && k < len(l.index.cells) && l.index.cells[k] == target.id) ==> result
 //@   ensures [falls-through-to-the-targets-centre] 0 <= gk && gk < len(l.index.cells) && l.index.cells[gk].Contains(target.id) && l.index.cells[gk] != target.id && !result ==>
 //@      !(l.index.cellMap[l.index.cells[gk]].shapes[0].containsCenter != vcClipParity(l, l.index.cellMap[l.index.cells[gk]].shapes[0].edges, l.index.cells[gk].Point(), target.Center(), len(l.index.cellMap[l.index.cells[gk]].shapes[0].edges)))
+
+// ContainsCell: only a cell inside a single index cell can be contained, and then only if the TARGET's centre is
+//@ func (l *Loop) ContainsCell(target Cell) bool
+//@   absmod
+//@   ghost gk int
+//@   requires l != nil && len(l.vertices) >= 1 && vcSI(l.index) && !vcHeld(&l.index.mu) && l.index.status == fresh && vcIdx(l.index) && vcValid(target.id) && vcLoopIndexOK(l)
+//@   modifies l.index.cells, l.index.cellMap, l.index.pendingRemovals, l.index.pendingAdditionsPos, l.index.status
+//@   ensures [only-inside-one-index-cell] result ==> (exists k int :: 0 <= k && k < len(l.index.cells) && l.index.cells[k].Contains(target.id))
+//@   ensures [needs-the-targets-centre-inside] 0 <= gk && gk < len(l.index.cells) && l.index.cells[gk].Contains(target.id) && result ==>
+//@      (l.index.cellMap[l.index.cells[gk]].shapes[0].containsCenter != vcClipParity(l, l.index.cellMap[l.index.cells[gk]].shapes[0].edges, l.index.cells[gk].Point(), target.Center(), len(l.index.cellMap[l.index.cells[gk]].shapes[0].edges)))
